@@ -78,10 +78,19 @@ func runStress(t []string) string {
 		}
 		return oc
 	}
-	s.q.syncRun = func(idx int) bool { return idx%4 == 1 }
+	twoUpdaters := seed%4 == 2 // two concurrent UpdateConfigTrustBundle callers (then bundle changes cannot be counted from outside)
+	var syncRuns, slowPushes, rootAnswers, failedGens int64
+	s.q.syncRun = func(idx int) bool {
+		if idx%4 == 1 {
+			atomic.AddInt64(&syncRuns, 1)
+			return true
+		}
+		return false
+	}
 	// the first push and every 8th are slow: requests overlap the window between SetWorkload(&item) and SetRoot
 	s.q.slowPush = func(idx int) time.Duration {
 		if idx%8 == 0 {
+			atomic.AddInt64(&slowPushes, 1)
 			return 2 * time.Millisecond
 		}
 		return 0
@@ -119,7 +128,7 @@ func runStress(t []string) string {
 			bundleMu.Lock()
 			okBundle := inBundle && bytes.Equal(nacache.VerifConfigTrustBundle(s.sc), bundleNow)
 			bundleMu.Unlock()
-			if !okBundle && !s.rootAnnouncedInPlace() {
+			if !twoUpdaters && !okBundle && !s.rootAnnouncedInPlace() {
 				atomic.AddInt64(&rootNotInPlace, 1)
 			}
 		}
@@ -144,6 +153,7 @@ func runStress(t []string) string {
 				}
 				it, err := s.sc.GenerateSecret(name)
 				if err != nil && failing {
+					atomic.AddInt64(&failedGens, 1)
 					continue // a failed signing attempt is reported to the caller, the next call tries again
 				}
 				if err != nil || it == nil {
@@ -160,6 +170,7 @@ func runStress(t []string) string {
 					fail("no-pair")
 				}
 				if name == security.RootCertReqResourceName {
+					atomic.AddInt64(&rootAnswers, 1)
 					l := rootLetters(it.RootCert)
 					if len(it.RootCert) == 0 || l == "-" || strings.Trim(l, "ABCD") != "" {
 						fail("rootca-content " + l)
@@ -203,6 +214,24 @@ func runStress(t []string) string {
 			time.Sleep(time.Duration(100+(next%5)*150) * time.Microsecond)
 		}
 	})
+	if twoUpdaters {
+		guard("bundle2", func() {
+			for k := 0; ; k++ {
+				select {
+				case <-stop:
+					return
+				default:
+				}
+				name := []string{"D", "-", "C", "C"}[k%4]
+				var b []byte
+				if name != "-" {
+					b = []byte(strings.Join(bundlePEMs(name), ""))
+				}
+				_ = s.sc.UpdateConfigTrustBundle(b)
+				time.Sleep(time.Duration(170+(k%3)*130) * time.Microsecond)
+			}
+		})
+	}
 	guard("bundle", func() {
 		prevBundle := "-"
 		for k := 0; ; k++ {
@@ -282,7 +311,7 @@ func runStress(t []string) string {
 	if calls > cl+1 {
 		return fmt.Sprintf("violated single-flight-weak calls=%d clears=%d", calls, cl)
 	}
-	if got := int(atomic.LoadInt64(&rootEvents)); got != wantR {
+	if got := int(atomic.LoadInt64(&rootEvents)); got != wantR && !twoUpdaters {
 		return fmt.Sprintf("violated root-announce-count got=%d want=%d", got, wantR)
 	}
 	if n := atomic.LoadInt64(&rootNotInPlace); n != 0 {
@@ -326,6 +355,9 @@ func runStress(t []string) string {
 	if calls == 0 || cl == 0 {
 		return fmt.Sprintf("inert calls=%d clears=%d", calls, cl)
 	}
+	statf("stress goroutines=%d ms=%d ca-ok=%d ca-failed=%d clears=%d tasks-inside-push=%d slow-pushes=%d rootca-answers=%d failed-requests=%d root-callbacks=%d updaters=%d",
+		n, ms, calls, s.ca.calls()-calls-1, cl, atomic.LoadInt64(&syncRuns), atomic.LoadInt64(&slowPushes), atomic.LoadInt64(&rootAnswers),
+		atomic.LoadInt64(&failedGens), atomic.LoadInt64(&rootEvents), map[bool]int{false: 1, true: 2}[twoUpdaters])
 	if os.Getenv("C18_STRESS_STATS") != "" {
 		fmt.Fprintf(os.Stderr, "stress: calls=%d clears=%d q=%d\n", calls, cl, s.q.len())
 	}
